@@ -669,8 +669,29 @@ def crtf_region(draw, global_coord):
         nd_ = 3 if pixel else 4
         dx = draw(st.integers(1, 5000)) / 10 ** nd_ * draw(st.sampled_from([1, -1]))
         dy = draw(st.integers(1, 5000)) / 10 ** nd_ * draw(st.sampled_from([1, -1]))
-        s['pts'].append([dict(p0[0], t=f"{float(p0[0]['t']) + dx:.{nd_}f}"),
-                         dict(p0[1], t=f"{float(p0[1]['t']) + dy:.{nd_}f}")])
+        c2 = [dict(p0[0], t=f"{float(p0[0]['t']) + dx:.{nd_}f}"),
+              dict(p0[1], t=f"{float(p0[1]['t']) + dy:.{nd_}f}")]
+        if not pixel:
+            # the two corners need not be written in the same notation
+            how = draw(st.sampled_from(['deg', 'deg', 'rad', 'sexa', 'mixed']))
+            lon_v, lat_v = float(c2[0]['t']), float(c2[1]['t'])
+
+            def sexa(v, hours):
+                neg = v < 0
+                a = abs(v) / (15.0 if hours else 1.0)
+                k = int(round(a * 360000))          # hundredths of a second
+                dd, rem = divmod(k, 360000)
+                mm, ss = divmod(rem, 6000)
+                return {'d': dd, 'm': mm, 's': f'{ss / 100:05.2f}', 'neg': neg}
+            if how in ('rad', 'mixed'):
+                c2[0] = {'style': 'rad', 't': f'{math.radians(lon_v):.8f}'}
+            if how == 'rad':
+                c2[1] = {'style': 'rad', 't': f'{math.radians(lat_v):.8f}'}
+            if how == 'sexa':
+                c2[0] = dict(sexa(lon_v, True), style='hms_colon')
+            if how in ('sexa', 'mixed'):
+                c2[1] = dict(sexa(lat_v, False), style='dms_dot')
+        s['pts'].append(c2)
     elif d == 'poly':
         for _ in range(draw(st.integers(2, 5))):
             s['pts'].append(pt())
